@@ -35,7 +35,7 @@ def repolicy(script, policy):
 def depth_suite(rng, tier):
     """CFA given by an expression that pushes d literals and adds them up: d = 62..67 around the fixed capacity"""
     out = []
-    for arch in ("x86", "a64"):
+    for arch, pres in [(a, p) for a in ("x86", "a64") for p in ("hdr", "eh", "debug")]:
         R = ARCH_REGS[arch]
         s = Script(arch, "must")
         fdes = []
@@ -47,7 +47,7 @@ def depth_suite(rng, tier):
             e.append(("pluc", pad))
             row = dict(cfa=("e", e), fp=("s",), ra=("o", -8))
             fdes.append(dict(start=0x1000 + 0x100 * i, len=0x100, rows=[(0, row)]))
-        s.module_dwarf("M", 0x10000, 0x20000, 0x10000, 0, "hdr", fdes, rng)
+        s.module_dwarf("M", 0x10000, 0x20000, 0x10000, 0, pres, fdes, rng)
         s.add("new U"); s.add("add U M"); s.add("newcache C")
         base = 0x7000
         pairs = {a: 0x11000 + 0x100 * ((a >> 3) % len(depths)) + 0x20 for a in range(base, base + 0x400, 8)}
@@ -57,9 +57,12 @@ def depth_suite(rng, tier):
             regs = s.regs_x86(pc, base, base + 0x100) if arch == "x86" else s.regs_a64(M64, 0x11f00, base, base + 0x100)
             for kind in ("ip", "ra"):
                 ln = s.add("unwind U C %s %s %s S" % (kind, hx(pc + (1 if kind == "ra" else 0)), regs),
-                           tag="depth:%s:%d:%s" % (arch, d, kind))
+                           tag="depth:%s:%s:%d:%s" % (arch, pres, d, kind))
                 s.meta[ln] = {"depth": d}
-        out.append(("depth-" + arch, s))
+        # and the iterator over the same frames
+        s.add("iter U C 0x11010 %s S 4 0" % (s.regs_x86(0x11010, base, base + 0x100) if arch == "x86" else s.regs_a64(M64, 0x11f00, base, base + 0x100)),
+              tag="depth-iter:%s:%s" % (arch, pres))
+        out.append(("depth-%s-%s" % (arch, pres), s))
     return out
 
 def generate(rng, tier):
